@@ -349,44 +349,16 @@ theorem markDirty_size (H : Heap α) (ns : List Nat) : (markDirty H ns).size = H
   | nil => rfl
   | cons n ns ih => simp only [List.foldl_cons]; rw [ih, setCtx_size]
 
-theorem accumulate_val {H H' : Heap α} {n : Nat} {g : Tensor α} (h : accumulate H n g = .ok H') (m : Nat) :
-    H'.val m = H.val m ∧ H'.size = H.size := by
-  unfold accumulate at h
-  split at h
-  · cases h; exact ⟨setCtx_val _ _ _ _, setCtx_size _ _ _⟩
-  · cases hadd : vArith Arith.add _ g with
-    | ok s => rw [hadd] at h; simp [Out.bind] at h; rw [← h]; exact ⟨setCtx_val _ _ _ _, setCtx_size _ _ _⟩
-    | err => rw [hadd] at h; simp [Out.bind] at h
-    | panic => rw [hadd] at h; simp [Out.bind] at h
-
-theorem applyEdge_val (bm : BMode) (u : Nat) (s : BPState α) (e : Edge α) (m : Nat) :
-    (applyEdge bm u s e).heap.val m = s.heap.val m ∧ (applyEdge bm u s e).heap.size = s.heap.size := by
-  unfold applyEdge
-  split
-  · split
-    · split
-      · exact ⟨rfl, rfl⟩
-      · split
-        · split
-          · rename_i hacc; exact accumulate_val hacc m
-          · exact ⟨rfl, rfl⟩
-          · exact ⟨rfl, rfl⟩
-        · exact ⟨rfl, rfl⟩
-        · exact ⟨rfl, rfl⟩
-    · exact ⟨rfl, rfl⟩
-  · exact ⟨rfl, rfl⟩
-
-theorem applyNode_val (bm : BMode) (s : BPState α) (u : Nat) (m : Nat) :
-    (applyNode bm s u).heap.val m = s.heap.val m ∧ (applyNode bm s u).heap.size = s.heap.size := by
-  unfold applyNode
-  generalize (s.heap.ctx u).edges = es
-  induction es generalizing s with
-  | nil => exact ⟨rfl, rfl⟩
-  | cons e es ih =>
-    simp only [List.foldl_cons]
-    have h1 := applyEdge_val bm u s e m
-    have h2 := ih (applyEdge bm u s e)
-    exact ⟨h2.1.trans h1.1, h2.2.trans h1.2⟩
+theorem writeBack_val (H : Heap α) (G : Nat → Option (Tensor α)) (m : Nat) :
+    (writeBack H G).val m = H.val m ∧ (writeBack H G).size = H.size := by
+  unfold writeBack Heap.val
+  refine ⟨?_, by simp⟩
+  by_cases hm : m < H.size
+  · simp [Array.getElem?_mapIdx, hm]
+  · have h1 : H[m]? = none := Array.getElem?_eq_none (by omega)
+    have h2 : (H.mapIdx (fun i nd => ({ nd with ctx := { nd.ctx with grad := G i } } : Node α)))[m]? = none :=
+      Array.getElem?_eq_none (by simp; omega)
+    rw [h1, h2]
 
 /-- **BackPropagate changes no tensor's shape or elements** (whatever its outcome): values and heap size
     are preserved; only contexts (gradients, spent flags) are written. -/
@@ -397,21 +369,8 @@ theorem backprop_val (bm : BMode) (H : Heap α) (root : Nat) (m : Nat) :
   · exact ⟨rfl, rfl⟩
   · simp only []
     split
-    · rename_i H2 hacc
-      have h0 := accumulate_val hacc m
-      have hfold : ∀ (order : List Nat) (s : BPState α),
-          (order.foldl (applyNode bm) s).heap.val m = s.heap.val m ∧ (order.foldl (applyNode bm) s).heap.size = s.heap.size := by
-        intro order
-        induction order with
-        | nil => intro s; exact ⟨rfl, rfl⟩
-        | cons u us ih =>
-          intro s
-          simp only [List.foldl_cons]
-          have h1 := applyNode_val bm s u m
-          have h2 := ih (applyNode bm s u)
-          exact ⟨h2.1.trans h1.1, h2.2.trans h1.2⟩
-      have h3 := hfold (backwardOrder H root) { heap := H2 }
-      exact ⟨h3.1.trans (h0.1.trans (markDirty_val _ _ _)), h3.2.trans (h0.2.trans (markDirty_size _ _))⟩
+    · simp only []
+      exact ⟨(writeBack_val _ _ m).1.trans (markDirty_val _ _ _), (writeBack_val _ _ m).2.trans (markDirty_size _ _)⟩
     · exact ⟨markDirty_val _ _ _, markDirty_size _ _⟩
     · exact ⟨markDirty_val _ _ _, markDirty_size _ _⟩
 
